@@ -67,7 +67,8 @@ func (x *Exec) obligationText(o *Obligation) string {
 	body.WriteString(x.out.String()[:o.Prefix])
 	bs := body.String()
 	for _, op := range optionalPrelude {
-		if strings.Contains(bs, "("+op.sym+" ") || strings.Contains(o.Goal, "("+op.sym+" ") || strings.Contains(o.Live, "("+op.sym+" ") {
+		// prefix match: (elemref_base ...) needs the elemref block as well
+		if strings.Contains(bs, "("+op.sym) || strings.Contains(o.Goal, "("+op.sym) || strings.Contains(o.Live, "("+op.sym) {
 			b.WriteString(op.text)
 			b.WriteByte('\n')
 		}
